@@ -686,6 +686,14 @@ def rvc_case(draw):
     c = draw(gen_case_strategy(max_ops=10))
     c["seed"] = draw(SEEDS)
     c["mode"] = "reset_vs_construct"
+    if draw(st.booleans()):
+        # a host DECLARED in a transitional power state (valid, unusual), half of them with start_up_duration 0: reset
+        # must leave it exactly where construction leaves it
+        hs = [h for z in c["spec"]["zones"] for h in z]
+        h = hs[draw(st.integers(0, len(hs) - 1))]
+        h["off"] = draw(st.sampled_from(["BOOTING", "SHUTTING_DOWN"]))
+        if draw(st.booleans()):
+            h["up"] = 0
     return c
 
 
